@@ -3,6 +3,7 @@
    store invariant "every stored key is a serialised peer of the swarm's own
    family" (TrackerP) and the response writers. *)
 From Chihaya Require Import Model.Tracker Proofs.SwarmP Proofs.SpecP Proofs.MemP Proofs.RedisP Proofs.TrackerP Proofs.UdpWriteP.
+From Chihaya Require Proofs.HttpWriteP.
 From Coq Require Import ZifyBool ZifyNat Lia.
 Open Scope Z_scope.
 
@@ -185,4 +186,52 @@ Proof.
     replace (if v6_of (r_af r) then if v6_of (r_af r) then ps else [] else if v6_of (r_af r) then [] else ps) with ps
       by (by destruct (v6_of (r_af r))).
     eapply Forall_impl; [exact Hps|]. intros p Hp. by apply sane_peer_ok.
+Qed.
+
+(* ---- C08, end to end (compact form): in EVERY state reached by a history of sane operations, EVERY body the
+   HTTP writer can emit for an accepted announce (any dictionary key order) decodes, with the independent
+   decoder of C19, to the counts the logic computed, the configured intervals in whole seconds and the
+   compact string of exactly the computed peers under the key of the REQUESTER's family - the other key is
+   absent *)
+Theorem http_announce_end_to_end_compact parse_ip header_get split_host t o ops clock uri remote r q :
+  (∀ s ip, parse_ip s = Some ip → wf_bytes ip = true ∧ (length ip = 4 ∨ length ip = 16)%nat) →
+  Forall sop_sane ops → wf_bytes uri = true →
+  HttpParse.parse_announce parse_ip header_get split_host o uri remote = HttpParse.Accept (r, q) →
+  r_compact r = true →
+  ∃ c i ps v,
+    http_announce_step spec_if parse_ip header_get split_host t o (run_spec ops) clock uri remote =
+      (swarm_interaction spec_if (ann_of_areq r) clock (run_spec ops), HBody v) ∧
+    respond spec_if (ann_of_areq r) (run_spec ops) = Some (c, i, ps) ∧
+    ∀ v' fuel, HttpWrite.same_value v v' = true → (length (Bencode.bencode v') <= fuel)%nat →
+      Bencode.bdecode fuel (Bencode.bencode v') = Bencode.Ok v' [] ∧
+      HttpWrite.get HttpWrite.k_complete v' = Some (Bencode.BInt c) ∧
+      HttpWrite.get HttpWrite.k_incomplete v' = Some (Bencode.BInt i) ∧
+      HttpWrite.get HttpWrite.k_interval v' = Some (Bencode.BInt (HttpWrite.dur_secs (t_interval t))) ∧
+      HttpWrite.get HttpWrite.k_min_interval v' = Some (Bencode.BInt (HttpWrite.dur_secs (t_min_interval t))) ∧
+      if v6_of (r_af r)
+      then HttpWrite.get HttpWrite.k_peers v' = None ∧
+           ∃ c6, HttpWrite.compact_all HttpWrite.compact6 ps = Some c6 ∧ HttpWrite.get HttpWrite.k_peers6 v' = HttpWriteP.opt_str c6
+      else HttpWrite.get HttpWrite.k_peers6 v' = None ∧
+           ∃ c4, HttpWrite.compact_all HttpWrite.compact4 ps = Some c4 ∧ HttpWrite.get HttpWrite.k_peers v' = HttpWriteP.opt_str c4.
+Proof.
+  intros Ho Hs Hw E Hc. unfold http_announce_step. rewrite E.
+  assert (∀ s ip, parse_ip s = Some ip → wf_bytes ip = true) as Ho' by (intros s ip H; apply (Ho s ip H)).
+  pose proof (http_request_peer_sane_wf parse_ip header_get split_host Ho' _ _ _ _ _ E Hw) as Ha.
+  destruct (respond_no_panic (ann_of_areq r) (run_spec ops) (run_spec_keys_ok ops Hs) Ha) as (c & i & ps & Er & _ & Hps).
+  rewrite Er.
+  destruct (http_announce_value_sane t (r_compact r) (ann_of_areq r) c i ps Hps) as (v & Ev). rewrite Ev.
+  exists c, i, ps, v. split; [done|]. split; [done|].
+  intros v' fuel Hsame Hfuel.
+  unfold http_announce_value in Ev.
+  match type of Ev with HttpWrite.announce_value ?ar = _ =>
+    assert (HttpWrite.a_compact ar = true) as Hca by exact Hc;
+    destruct (HttpWriteP.announce_body_decodes_compact ar v v' fuel Hca Ev Hsame Hfuel)
+      as (H1 & H2 & H3 & H4 & H5 & c4 & c6 & E4 & E6 & G4 & G6)
+  end.
+  cbn [HttpWrite.a_complete HttpWrite.a_incomplete HttpWrite.a_interval HttpWrite.a_min_interval HttpWrite.a_v4 HttpWrite.a_v6] in *.
+  split; [done|]. split; [done|]. split; [done|]. split; [done|]. split; [done|].
+  assert (a_v6 (ann_of_areq r) = v6_of (r_af r)) as Ev6 by (cbn [ann_of_areq a_v6]; by destruct (r_af r)).
+  rewrite Ev6 in E4, E6. destruct (v6_of (r_af r)).
+  - cbn in E4. injection E4 as <-. split; [exact G4|]. by exists c6.
+  - cbn in E6. injection E6 as <-. split; [exact G6|]. by exists c4.
 Qed.
